@@ -461,6 +461,8 @@ def check_overrides(schema: Type[MetadataSchema]):
     # all undeclared overrides must be strict subtypes of the inherited type:
     for fname in undecl_override:
         hint, parent_hint = hints[fname], base_hints[fname]
+        if (fld := schema.__fields__.get(fname)) and fld.allow_none:
+            hint = Optional[hint]  # e.g. `x: T = None` makes the field optional
         if not is_subtype(hint, parent_hint):
             parent = infer_parent(schema)
             parent_name = (
